@@ -147,6 +147,11 @@ def check(F, R, tier):
     for c in cas:
         t = sym_nstr(sym(rsf, c.site.args[2]))
         R.ob('FLOW', 'FLOW::%s::new-state-is-phi(MarkedForDestruction | current&!role)' % fnkey(rsf), t.startswith('phi'), 'CAS new value `%s` is chosen per iteration' % t, c.site.where, rsf)
+    for (fn_, cs_) in ((rpf, atomics(rpf, r'^self\.state$', 'compare_exchange(_weak)?')), (rsf, cas)):
+        for c in cs_:
+            r_ = lib.cas_loop_fresh(R, fn_, c.site, 'LOOP::%s::decision-recomputed-per-iteration' % fnkey(fn_), 'the last-role / already-connected decision must be taken on the value the CAS compares against (a peer may attach or detach between the load and the CAS)')
+            if r_ is None:
+                R.ob('LOOP', 'LOOP::%s::decision-recomputed-per-iteration' % fnkey(fn_), False, 'anchor-missing: the role CAS is not inside a retry loop', c.site.where, fn_)
     mfd = [s for s in rsf.sites if s.is_call and (s.callee or '').endswith('State::value') and rsf.enum_variant_of(s.args[0]) is None]
     # MarkedForDestruction is chosen exactly under current == state_to_remove
     sites = [s for s in rsf.sites if s.i != 'T' and s.node[0] == 'a' and s.node[2][0] == 'agg' and s.node[2][1][0] == 'adt' and s.node[2][1][1].endswith('::State') and s.node[2][1][2] == 'MarkedForDestruction']
